@@ -2,6 +2,7 @@ package rules
 
 import (
 	"fmt"
+	"go/token"
 	"go/types"
 	"sort"
 
@@ -308,6 +309,175 @@ func runC10(c *Ctx) {
 		}
 		c.verdict(okPush, c.nm(fn)+" | heap.Push(&s.pq, each element of s.nextBatch)", c.P.Pos(fn.Pos()), "deferred requests re-enter the queue", "the deferred requests are no longer pushed back onto the queue")
 		c.whoMay("store to UtxoScanner.nextBatch", storeToField(nb), []string{"(*neutrino.UtxoScanner).batchManager", "(*neutrino.UtxoScanner).dequeueAtHeight"}, 2)
+	})
+
+	c.rule("C10.V1", "what a caller is told is about its own outpoint: notifySpends builds one fresh SpendReport per matching input (allocated in the input loop, never shared between outpoints) holding the spending transaction, the index of the matching input and the block height, files it and answers the requests under that input's previous outpoint; findInitialTransactions builds one fresh report per request from the output at the request's own index (behind the bounds check), the block height and the transaction's position", func() {
+		sr := func(f string) *types.Var { return c.field("neutrino", "SpendReport", f) }
+		// ---- notifySpends
+		fn := c.fn("(*neutrino.batchSpendReporter).notifySpends")
+		notify := find(fn, callTo(rep("notifyRequests")))
+		var bad, sites []string
+		check := func(cond bool, msg string) {
+			if !cond {
+				bad = append(bad, msg)
+			}
+		}
+		storedIn := func(al *ssa.Alloc, f *types.Var) ssa.Value {
+			var v ssa.Value
+			ir.Instrs(al.Parent(), func(in ssa.Instruction) {
+				st, ok := in.(*ssa.Store)
+				if !ok {
+					return
+				}
+				if fa, ok := st.Addr.(*ssa.FieldAddr); ok && fa.X == ssa.Value(al) && ir.FieldOfAddr(fa) == f {
+					v = st.Val
+				}
+			})
+			return v
+		}
+		check(len(notify) == 1, fmt.Sprintf("%d notifyRequests call(s) in notifySpends, 1 tabled", len(notify)))
+		for _, x := range notify {
+			sites = append(sites, c.at(x))
+			a := argsOf(x)
+			rpt, ok := a[2].(*ssa.Alloc)
+			if !ok {
+				check(false, "the report handed to notifyRequests at "+c.at(x)+" is not a freshly built SpendReport")
+				continue
+			}
+			h := ir.LoopHeaderOf(x.Block())
+			check(h != nil && ir.LoopHeaderOf(rpt.Block()) == h, "the SpendReport answered at "+c.at(x)+" is allocated outside the input loop: every outpoint spent by one transaction shares (and overwrites) one report")
+			// the outpoint cell: copy of the input's PreviousOutPoint
+			opCell, _ := a[0].(*ssa.Alloc)
+			var txin ssa.Value // the *wire.TxIn the outpoint was read from
+			if opCell != nil {
+				for _, st := range ir.StoresTo(opCell) {
+					if ld, ok := st.Val.(*ssa.UnOp); ok {
+						if fa, ok := ld.X.(*ssa.FieldAddr); ok && ir.FieldOfAddr(fa) == c.field(pWire, "TxIn", "PreviousOutPoint") {
+							txin = fa.X
+						}
+					}
+				}
+			}
+			check(txin != nil, "the outpoint answered at "+c.at(x)+" is not a copy of an input's PreviousOutPoint")
+			// tx.TxIn[idx]
+			var idx, tx ssa.Value
+			if ld, ok := txin.(*ssa.UnOp); ok {
+				if ia, ok := ld.X.(*ssa.IndexAddr); ok {
+					idx = ia.Index
+					if l2, ok := ia.X.(*ssa.UnOp); ok {
+						if fa, ok := l2.X.(*ssa.FieldAddr); ok && ir.FieldOfAddr(fa) == c.field(pWire, "MsgTx", "TxIn") {
+							tx = fa.X
+						}
+					}
+				}
+			}
+			check(idx != nil && tx != nil, "the matching input is not an element of tx.TxIn")
+			if idx != nil && tx != nil {
+				check(storedIn(rpt, sr("SpendingTx")) == tx, "SpendReport.SpendingTx is not the transaction whose input matched")
+				conv, _ := storedIn(rpt, sr("SpendingInputIndex")).(*ssa.Convert)
+				check(conv != nil && conv.X == idx, "SpendReport.SpendingInputIndex is not the index of the matching input")
+				check(storedIn(rpt, sr("SpendingTxHeight")) == ssa.Value(fn.Params[2]), "SpendReport.SpendingTxHeight is not the height of the processed block")
+			}
+			// requests looked up, and the report filed, under that outpoint
+			keyed := func(v ssa.Value) bool {
+				ld, ok := v.(*ssa.UnOp)
+				return ok && opCell != nil && ld.X == ssa.Value(opCell)
+			}
+			lk, _ := a[1].(*ssa.Extract)
+			okLk := false
+			if lk != nil {
+				if l, ok := lk.Tuple.(*ssa.Lookup); ok {
+					okLk = keyed(l.Index) && loadsField(c.field("neutrino", "batchSpendReporter", "requests"))(l.X)
+				}
+			}
+			check(okLk, "the requests answered are not b.requests[that outpoint]")
+			filed := false
+			ir.Instrs(fn, func(in ssa.Instruction) {
+				if mu, ok := in.(*ssa.MapUpdate); ok && mu.Value == ssa.Value(rpt) && keyed(mu.Key) {
+					filed = true
+				}
+			})
+			check(filed, "the report is not returned under its own outpoint")
+		}
+		sort.Strings(bad)
+		c.verdict(len(bad) == 0, c.nm(fn)+" | one fresh, correctly filled SpendReport per matching input", c.P.Pos(fn.Pos()), "SpendReport{tx, uint32(i), height} allocated per input, keyed and answered by ti.PreviousOutPoint", join(bad), sites...)
+
+		// ---- findInitialTransactions
+		fi := c.fn("(*neutrino.batchSpendReporter).findInitialTransactions")
+		bad, sites = nil, nil
+		n := 0
+		ir.Instrs(fi, func(in ssa.Instruction) {
+			mu, ok := in.(*ssa.MapUpdate)
+			if !ok {
+				return
+			}
+			rpt, ok := mu.Value.(*ssa.Alloc)
+			if !ok {
+				return
+			}
+			n++
+			sites = append(sites, c.at(in))
+			h := ir.LoopHeaderOf(in.Block())
+			check(h != nil && ir.LoopHeaderOf(rpt.Block()) == h, "the SpendReport filed at "+c.at(in)+" is allocated outside the request loop")
+			key, _ := mu.Key.(*ssa.UnOp)
+			var opCell ssa.Value
+			if key != nil {
+				opCell = key.X
+			}
+			// Output = txOuts[op.Index]
+			okOut := false
+			var outIdx ssa.Value
+			if ld, ok := storedIn(rpt, sr("Output")).(*ssa.UnOp); ok {
+				if ia, ok := ld.X.(*ssa.IndexAddr); ok {
+					outIdx = ia.Index
+					if il, ok := ia.Index.(*ssa.UnOp); ok {
+						if fa, ok := il.X.(*ssa.FieldAddr); ok && fa.X == opCell && ir.FieldOfAddr(fa) == c.field(pWire, "OutPoint", "Index") {
+							okOut = ir.DerivesFrom(ia.X, func(v ssa.Value) bool {
+								f, ok := v.(*ssa.FieldAddr)
+								return ok && ir.FieldOfAddr(f) == c.field(pWire, "MsgTx", "TxOut")
+							})
+						}
+					}
+				}
+			}
+			check(okOut, "SpendReport.Output is not tx.TxOut[op.Index] for the outpoint it is filed under")
+			check(storedIn(rpt, sr("BlockHeight")) == ssa.Value(fi.Params[3]), "SpendReport.BlockHeight is not the height of the processed block")
+			conv, _ := storedIn(rpt, sr("BlockIndex")).(*ssa.Convert)
+			okIdx := false
+			if conv != nil {
+				// the index of the transaction in block.Transactions
+				ir.Instrs(fi, func(x ssa.Instruction) {
+					if ia, ok := x.(*ssa.IndexAddr); ok && ia.Index == conv.X {
+						okIdx = okIdx || ir.DerivesFrom(ia.X, func(v ssa.Value) bool {
+							f, ok := v.(*ssa.FieldAddr)
+							return ok && ir.FieldOfAddr(f) == c.field(pWire, "MsgBlock", "Transactions")
+						})
+					}
+				})
+			}
+			check(okIdx, "SpendReport.BlockIndex is not the position of the transaction in the block")
+			// bounds check dominates the element access
+			_ = outIdx
+			g, odd := relGuard("op.Index < len(txOuts)", fi, func(v ssa.Value) bool {
+				ld, ok := v.(*ssa.UnOp)
+				if !ok {
+					return false
+				}
+				fa, ok := ld.X.(*ssa.FieldAddr)
+				return ok && fa.X == opCell && ir.FieldOfAddr(fa) == c.field(pWire, "OutPoint", "Index")
+			}, func(v ssa.Value) bool {
+				return ir.DerivesFrom(v, func(x ssa.Value) bool {
+					call, ok := x.(*ssa.Call)
+					return ok && isBuiltin("len")(call)
+				})
+			}, token.LSS)
+			check(len(odd) == 0, "output index compared with len(txOuts) by "+join(odd))
+			if len(odd) == 0 {
+				c.guarded(fi, g, 1, "initialTxns[op] = &SpendReport{Output: txOuts[op.Index]}", []ssa.Instruction{in}, 1, gDominate)
+			}
+		})
+		sort.Strings(bad)
+		c.verdict(len(bad) == 0 && n == 1, c.nm(fi)+" | one fresh, correctly filled report per request", c.P.Pos(fi.Pos()), "SpendReport{txOuts[op.Index], &h, height, uint32(i)} filed under op", join(bad)+fmt.Sprintf(" (%d report site(s))", n), sites...)
 	})
 
 	c.rule("C10.L1", "UtxoScanner.pq and nextBatch are accessed only under s.mu (= s.cv.L); GetUtxoRequest.result only under r.mu", func() {
